@@ -52,11 +52,27 @@ func c16TrackRun(t *testing.T, sc c16TrackScenario, choices []int) vsched.Outcom
 		for i := range ctxs {
 			ctxs[i], cancels[i] = context.WithCancel(context.Background())
 		}
+		shared := false
+		for i, g := range sc.WaiterGroups {
+			for j, h := range sc.WaiterGroups {
+				if i != j && g == h {
+					shared = true
+				}
+			}
+		}
 		for i, g := range sc.WaiterGroups {
 			views[i] = PeersConnectedness{}
 			gkey := fmt.Sprintf("group%d", g)
 			s.Go(fmt.Sprintf("waiter%d", i), func() {
+				var lastResult, lastCopy []peer.ID
 				for {
+					// the caller is still reading the list it was handed while other waiters of the group go on
+					if shared {
+						vsched.Yield("h:consume")
+					}
+					if fmt.Sprint(lastResult) != fmt.Sprint(lastCopy) && exact == "" {
+						exact = fmt.Sprintf("waiter%d: the list it was handed, %v, reads %v after other tasks ran (before its next call)", i, lastCopy, lastResult)
+					}
 					before := PeersConnectedness{}
 					for k, v := range views[i] {
 						before[k] = v
@@ -82,6 +98,7 @@ func c16TrackRun(t *testing.T, sc c16TrackScenario, choices []int) vsched.Outcom
 					if exact == "" && len(updated) == 0 {
 						exact = fmt.Sprintf("waiter%d: returned ok with no updated peer", i)
 					}
+					lastResult, lastCopy = updated, append([]peer.ID(nil), updated...)
 				}
 			})
 		}
@@ -180,6 +197,7 @@ func c16TrackScenarios() []c16TrackScenario {
 		{WaiterGroups: []int{0}, Ops: []c16TrackOp{A(0, 1), U(1, 2)}, Cancel: true},
 		{WaiterGroups: []int{0, 1}, Ops: []c16TrackOp{A(0, 1), A(1, 1), U(1, 2)}},
 		{WaiterGroups: []int{0}, Ops: []c16TrackOp{A(0, 1), U(1, 2), A(0, 2)}, Updaters: 2},
+		{WaiterGroups: []int{0, 0}, Ops: []c16TrackOp{A(0, 1), A(0, 2), U(1, 2)}},
 	}
 	if vacct.Thorough() {
 		scs = append(scs,
